@@ -16,6 +16,5 @@ CONSTANTS
   RelevantSignersOnly = TRUE
 SPECIFICATION Spec
 VIEW View
-INVARIANTS TypeOK TrustOnlyByRFC RevokedNeverAgain RevokedNeverAtFetch
-PROPERTIES UnauthenticatedChangesNothing RevokedOnlyRevokes FailClosed MissingKeepsTrust ReappearRestores PublishedFromState
+INVARIANTS W_NeverFailClosedW
 CHECK_DEADLOCK FALSE
